@@ -318,6 +318,12 @@ class Check(PropertyCheck):
             trace.append({"hook:client_connected": "hookClientConnected", "event:Start": "startLayer",
                           "handle_connection": "handleConnection",
                           "hook:client_disconnected": "hookClientDisconnected"}.get(t, t))
+        # handle_connection is replaced by a recorder here; in the real handler it closes the client writer itself.
+        # Transport clean-up AFTER the connection was processed (ConnectionHandler.release_transport) is therefore not
+        # part of the compared trace: only a writer closed INSTEAD of processing (the refusal) is.
+        if "handleConnection" in trace:
+            i = trace.index("handleConnection")
+            trace = trace[:i + 1] + [t for t in trace[i + 1:] if t != "closeWriter"]
         return {"verdict": verdict, "trace": trace, "addon_errors": len(e.errors)}
 
     # ---------------- property oracle ----------------
